@@ -5,6 +5,7 @@ Loci (BED):  L1 chr1:8-30   3 SNVs (one tri-allelic), several haplotypes  -> >2 
              L3 chr2:5-25   2 SNVs, reference haplotype absent everywhere -> REFMASKED
              L4 chr2:34-48  1 SNV, no read covers it                      -> no reads
              L5 chr1:36-48  2 SNVs, every read is reference               -> ALT-less record *with* SNVs
+             L6 chr2:49-59  6 SNVs, no reads                              -> nothing reaches the threshold: REFMASKED + NOA, no ALT
 Samples: S1 (ploidy 4, deep), S2 (ploidy 2), S3 (ploidy 6, shallow)."""
 import os
 
@@ -17,7 +18,7 @@ SNVS = [
     ("chr1", 12, REF["chr1"][12], None), ("chr1", 17, REF["chr1"][17], None), ("chr1", 22, REF["chr1"][22], None),
     ("chr1", 40, REF["chr1"][40], None), ("chr1", 44, REF["chr1"][44], None),
     ("chr2", 10, REF["chr2"][10], None), ("chr2", 14, REF["chr2"][14], None), ("chr2", 40, REF["chr2"][40], None),
-]
+] + [("chr2", p, REF["chr2"][p], None) for p in (50, 51, 53, 54, 56, 57)]
 
 
 def _alts(base, n):
@@ -25,7 +26,7 @@ def _alts(base, n):
 
 
 SNVS = [(c, p, r, _alts(r, 2 if (c, p) == ("chr1", 17) else 1)) for (c, p, r, _) in SNVS]
-LOCI = [("chr1", 8, 30, "L1"), ("chr1", 36, 48, "L5"), ("chr1", 50, 58, "L2"), ("chr2", 5, 25, "L3"), ("chr2", 34, 48, "L4")]
+LOCI = [("chr1", 8, 30, "L1"), ("chr1", 36, 48, "L5"), ("chr1", 50, 58, "L2"), ("chr2", 5, 25, "L3"), ("chr2", 34, 48, "L4"), ("chr2", 49, 59, "L6")]
 PLOIDY = {"S1": 4, "S2": 2, "S3": 6}
 RG = {"S1": "rg1", "S2": "rg2", "S3": "rg3"}
 HAPS = {
